@@ -50,6 +50,7 @@ static void gen_stream(Rng& r, int shape, uint64_t n, std::vector<T>& out) {
       case 5: x = double(r.below(3)) * 1000 + r.unit(); break;        // clustered
       case 6: x = std::exp(r.unit() * 20 - 10); break;                // heavy-tailed
       case 7: x = (i % 2) ? double(i) : -double(i); break;            // alternating outward
+      case 9: out.push_back(static_cast<T>(double(r.below(5000)) * (sizeof(T) == 8 ? 1e-310 : 1e-42))); continue;   // subnormal magnitudes: differences of neighbouring means underflow reciprocals
       default: x = r.chance(0.9) ? 1.0 : r.unit() * 1e6; break;       // mostly one value + outliers
     }
     out.push_back(static_cast<T>(x * scale + shift));
@@ -176,7 +177,7 @@ static void program(Rng& r) {
     const uint16_t kl = r.chance(0.8) ? k : uint16_t(r.range(10, 300));
     td.emplace_back(new TD(l == 0 ? k : kl));
     md.emplace_back();
-    const int shape = int(r.below(9));
+    const int shape = int(r.below(10));
     const uint64_t n = r.chance(0.1) ? r.below(3) : (r.chance(0.6) ? r.below(400) : r.below(TH ? 60000 : 12000));
     gen_stream<T>(r, shape, n, stream);
     count("shape_" + std::to_string(shape));
